@@ -392,10 +392,11 @@ func checkC08(w *World, r *Report) {
 			return ""
 		}
 		for s := -1; s <= 1; s++ {
-			live := ReachUnder(nva, OrderEval(term, twoTermCmp("lockEnd", "now", s), nil))
-			vals := live.LiveValues(st)
+			// (the choice may sit in a helper `laterOf(lockEnd, now)`: its live results under the same ordering, in nva's terms)
+			vals := w.LiveValuesDeep(nva, OrderEval(term, twoTermCmp("lockEnd", "now", s), nil), st, 2)
 			ok := len(vals) > 0
-			for _, v := range vals {
+			for _, dv := range vals {
+				v := dv.Root
 				isNow, isLE := isBlockTime(v), v == lockEndP
 				switch {
 				case s < 0 && !isNow, s > 0 && !isLE, s == 0 && !isNow && !isLE:
